@@ -724,9 +724,14 @@ func (s *Subscription) processModelEvent(event *rescache.ResourceEvent) {
 
 		// Check for removing changed references after adding references to avoid unsubscribing to
 		// a resource that is going to be subscribed again because it has moved between properties.
-		for k := range ch {
-			if ov, ok := old[k]; ok && ov.Type == codec.ValueTypeReference {
-				s.removeReference(ov.RID)
+		// It is also done after the added references are counted as sent, as
+		// a resource reachable through both a removed and an added reference
+		// would otherwise be considered no longer sent to the client.
+		removeOld := func() {
+			for k := range ch {
+				if ov, ok := old[k]; ok && ov.Type == codec.ValueTypeReference {
+					s.removeReference(ov.RID)
+				}
 			}
 		}
 
@@ -738,6 +743,7 @@ func (s *Subscription) processModelEvent(event *rescache.ResourceEvent) {
 			for _, sub := range subs {
 				sub.indirectsent++
 			}
+			removeOld()
 			// Legacy behavior
 			if s.c.ProtocolVersion() < versionSoftResourceReferenceAndDataValue {
 				s.c.Send(rpc.NewEvent(s.rid, event.Event, rpc.ChangeEvent{Values: rescache.Legacy120ValueMap(event.Changed)}))
@@ -785,6 +791,7 @@ func (s *Subscription) processModelEvent(event *rescache.ResourceEvent) {
 				for _, sub := range subs {
 					sub.ReleaseRPCResources()
 				}
+				removeOld()
 
 				s.unqueueEvents(queueReasonLoading)
 			})
